@@ -222,6 +222,43 @@ def property_oracle(data, bases, B, negB_eff, mirror, ep):
     return True, None
 
 
+def effect_oracle(data, bases, B, negB_eff, mirror, batches):
+    """the property judged by EFFECT alone: `batches` = [(pos, neg, basesbatch|None)] actually handed to compute_batch_gradients in one epoch.
+    No reference to how the randomness was drawn. returns (ok, detail)"""
+    N = len(data)
+    nb = -(-N // B)
+    if len(batches) != nb:
+        return False, f"{len(batches)} batches, expected ceil({N}/{B}) = {nb}"
+    sizes = [len(p) for p, _, _ in batches]
+    if sizes[:-1] != [B] * (nb - 1) or sizes[-1] != N - (nb - 1) * B or not (1 <= sizes[-1] <= B):
+        return False, f"batch sizes {sizes}"
+    flat = [tuple(r) for p, _, _ in batches for r in p]
+    if collections.Counter(flat) != collections.Counter(tuple(r) for r in data):
+        return False, "positive batches are not a permutation (as a multiset) of the data rows"
+    if bases is not None:
+        if any(bb is None for _, _, bb in batches):
+            return False, "bases supplied but a batch came without its bases"
+        if [len(bb) for _, _, bb in batches] != sizes:
+            return False, "bases batch sizes differ from sample batch sizes"
+        flatb = [tuple(r) for _, _, bb in batches for r in bb]
+        if collections.Counter(zip(flat, flatb)) != collections.Counter((tuple(d), tuple(b)) for d, b in zip(data, bases)):
+            return False, "some row is not paired with its own basis row"
+        zrows = {tuple(d) for d, b in zip(data, bases) if all(c == "Z" for c in b)}
+        for _, ng, _ in batches:
+            if len(ng) != negB_eff or any(tuple(r) not in zrows for r in ng):
+                return False, "negative batch not neg_batch_size reference-basis rows"
+    else:
+        allrows = {tuple(r) for r in data}
+        for p, ng, bb in batches:
+            if bb is not None:
+                return False, "bases batch without bases"
+            if any(tuple(r) not in allrows for r in ng):
+                return False, "negative row is not a training row"
+            if len(ng) != negB_eff and not (mirror and ng == p):
+                return False, "negative batch: neither neg_batch_size rows nor (equal sizes, no bases) the positive batch itself"
+    return True, None
+
+
 # ------------------------------------------------------------------ one session = consecutive fit calls on one state object
 RUN_KEYS = ("N", "B", "neg", "epochs", "form", "data", "bases", "malformed")
 
@@ -301,30 +338,58 @@ def one_call(ctx, case, st, kind, run, r_idx, state):
 
     st.compute_batch_gradients = cbg
     err = None
+    from qucumber.callbacks import LambdaCallback
+
+    marks = LambdaCallback(on_epoch_start=lambda s_, e_: rec.log.append(("epoch", int(e_))))
     rec.install()
     try:
         kw = {"input_bases": bases_obj} if kind != "pos" else {}
-        st.fit(data_obj, epochs=epochs, pos_batch_size=B, neg_batch_size=neg, k=1, lr=0.01, progbar=False, **kw)
+        st.fit(data_obj, epochs=epochs, pos_batch_size=B, neg_batch_size=neg, k=1, lr=0.01, progbar=False, callbacks=[marks], **kw)
     except Exception as e:
         err = type(e).__name__
     finally:
         rec.uninstall()
         del st.compute_batch_gradients
 
-    # split the log into epochs
-    eps = []
+    # split the log into epochs BY EFFECT: an epoch = the batches handed to compute_batch_gradients after an on_epoch_start event; the random
+    # draws made since the previous epoch's last batch (fit shuffles before on_epoch_start) are attached to it
+    eps, pending = [], []
     for en in rec.log:
-        if en[0] == "perm":
-            eps.append({"perm": en[2], "permN": en[1], "negIdx": [], "randint": None, "batches": [], "storages": []})
-        elif en[0] == "randint" and eps:
-            eps[-1]["negIdx"] = en[3]
-            eps[-1]["randint"] = [en[1], en[2][0] if en[2] else 0]
-        elif en[0] == "batch" and eps:
+        if en[0] in ("perm", "randint"):
+            if eps and eps[-1]["open"] and not eps[-1]["batches"]:
+                eps[-1]["rng"].append(en)  # drawn lazily, after the epoch started and before its first batch
+            else:
+                pending.append(en)
+        elif en[0] == "epoch":
+            if eps:
+                eps[-1]["open"] = False
+            eps.append({"rng": pending, "batches": [], "storages": [], "open": True})
+            pending = []
+        elif en[0] == "batch":
+            if not eps:
+                eps.append({"rng": pending, "batches": [], "storages": [], "open": True})
+                pending = []
             eps[-1]["batches"].append((en[1], en[2], en[3]))
             eps[-1]["storages"].append(en[4])
+            if pending:  # draws made between two batches of the same epoch: not the modelled consumption
+                eps[-1]["rng"] = eps[-1]["rng"] + pending
+                eps[-1]["late_rng"] = True
+                pending = []
+    # does the code consume randomness the way the model scripts it (ONE randperm(N), then at most ONE randint for the whole epoch)?
+    for ep in eps:
+        kinds_ = [en[0] for en in ep["rng"]]
+        ep["as_modelled"] = kinds_ in (["perm"], ["perm", "randint"]) and not ep.get("late_rng")
+        ep["perm"] = ep["rng"][0][2] if ep["as_modelled"] else None
+        ep["permN"] = ep["rng"][0][1] if ep["as_modelled"] else None
+        ep["negIdx"], ep["randint"] = [], None
+        if ep["as_modelled"] and len(ep["rng"]) == 2:
+            en = ep["rng"][1]
+            ep["negIdx"] = en[3]
+            ep["randint"] = [en[1], en[2][0] if en[2] else 0]
+    scripted = bool(eps) and all(ep["as_modelled"] for ep in eps)
     negB_eff = neg if neg else B
     mirror = bases is None and negB_eff == B
-    if N >= 2 and any(ep["perm"] != sorted(ep["perm"]) for ep in eps):
+    if N >= 2 and any([r for p_, _, _ in ep["batches"] for r in p_] != [list(map(int, r)) for r in data] for ep in eps):
         state["nontriv"] = True
     if state["perm0"] is None and eps:
         state["perm0"] = eps[0]["perm"]
@@ -342,11 +407,20 @@ def one_call(ctx, case, st, kind, run, r_idx, state):
     # ---- oracles on the implementation
     if not expect_error:
         ctx.oracle("fit raised", err is None, case, detail=err, sig=f"{sig}/exception")
-        ctx.oracle("one shuffle per epoch", len(eps) == epochs, case, detail={"shuffles": len(eps)}, sig=f"{sig}/epochs")
+        ctx.oracle("one pass over the data per requested epoch", len(eps) == epochs, case, detail={"epochs_run": len(eps), "requested": epochs}, sig=f"{sig}/epochs")
+        ctx.count("random draws consumed as modelled (one randperm, at most one randint per epoch)" if scripted else
+                  "random draws NOT consumed as modelled: scripted comparison with the model skipped, verdict from the effect oracle")
         for e_i, ep in enumerate(eps):
+            # the property judged by effect (no reference to the random draws)
+            ok, detail = effect_oracle(data, bases, B, negB_eff, mirror, ep["batches"])
+            ctx.oracle("epoch batches satisfy the property (by effect: partition with own bases, sizes, negative rows from the allowed pool)", ok,
+                       {**case, "epoch": e_i}, detail=detail, sig=f"{sig}/property", theorem="C07_partition, C07_own_basis, C07_sizes, C07_negative")
+            if not scripted:
+                continue
+            # sharper restatement available when the draws are consumed as modelled: the batches are the data re-indexed by THE recorded permutation
             ok, detail = property_oracle(data, bases, B, negB_eff, mirror, ep)
-            ctx.oracle("epoch batches satisfy the property", ok, {**case, "epoch": e_i}, detail=detail, sig=f"{sig}/property",
-                       theorem="C07_partition, C07_own_basis, C07_sizes, C07_negative")
+            ctx.oracle("epoch batches are the data re-indexed by the recorded permutation / z_samples[recorded randint]", ok, {**case, "epoch": e_i}, detail=detail,
+                       sig=f"{sig}/property", theorem="C07_partition, C07_own_basis, C07_sizes, C07_negative")
             if ep["randint"] is not None:
                 high, size = ep["randint"]
                 ctx.oracle("randint result in range", len(ep["negIdx"]) == size and all(0 <= i < high for i in ep["negIdx"]), case,
@@ -366,8 +440,14 @@ def one_call(ctx, case, st, kind, run, r_idx, state):
     # ---- correspondence with the model (fed the data of THIS call)
     if ctx.driver is None:
         return
+    if not expect_error and not scripted:
+        if not ctx.__dict__.get("_c07_noted"):
+            ctx._c07_noted = True
+            ctx.note("C07: the implementation does not consume torch.randperm/torch.randint as the model scripts it; the model comparison is skipped "
+                     "for such runs and the verdict comes from the effect oracles evaluated on the batches actually consumed")
+        return
     if expect_error:
-        perm = eps[0]["perm"] if eps else list(range(N))
+        perm = (eps[0]["perm"] if eps and eps[0]["perm"] else None) or list(range(N))
         m = ctx.driver.call("c07.epoch", data=data, bases=bases, posB=B, negB=neg, perm=perm, negIdx=[])
         merr = m["prep"].get("error") or m["out"].get("error")
         # malformed input is outside the property's quantifier (N >= 1, batch sizes >= 1, a reference-basis row, bases of the data's
@@ -426,6 +506,7 @@ def one_direct(ctx, case):
         rec.uninstall()
     perm = next((en[2] for en in rec.log if en[0] == "perm"), list(range(N)))
     negIdx = next((en[3] for en in rec.log if en[0] == "randint"), [])
+    scripted = [en[0] for en in rec.log] in (["perm"], ["perm", "randint"])  # random draws consumed as the model scripts them
     ctx.case({k: case[k] for k in case if k != "dseed"}, nontrivial=N >= 2 and perm != sorted(perm))
     ctx.count("direct_shuffle_calls")
     ceil_nb = -(-N // B)
@@ -448,11 +529,17 @@ def one_direct(ctx, case):
         if impl_b is not None:
             ctx.oracle("number of batches = ceil(N/B)", len(impl_b) == ceil_nb, case, detail={"len": len(impl_b), "expected": ceil_nb},
                        sig=f"{sig}/num-batches", theorem="C07_sizes")
+            ok_e, det_e = effect_oracle(data, bases, B, negB, bases is None and negB == B, [(b_["pos"], b_["neg"], b_["bases"]) for b_ in impl_b])
+            ctx.oracle("direct call with fit's arguments: batches satisfy the property (by effect)", ok_e, case, detail=det_e, sig=f"{sig}/property",
+                       theorem="C07_partition, C07_own_basis, C07_sizes, C07_negative")
     if ctx.driver is None:
         return
     if bases is not None:
         mz = ctx.driver.call("c07.refbasis", samples=data, bases=bases)
         ctx.point("extract_refbasis_samples", "property", zl, mz.get("z"), case, exact=True, sig=f"{kind}/refbasis", theorem="C07_refbasis")
+    if not scripted:
+        ctx.count("direct: random draws NOT consumed as modelled (model comparison skipped)")
+        return
     m = ctx.driver.call("c07.shuffle", perm=perm, negIdx=negIdx, posB=B, negB=negB, numBatches=nb, samples=data, bases=bases, zSamples=zl)
     if not in_scope:
         agree = (err is not None or "error" in m) and err == m.get("error") or (impl_b is not None and impl_b == m.get("batches"))
